@@ -243,13 +243,33 @@ def r3_containers(chk: Check):
                         f"the list length prefix `{packs[0][1][2] if packs else '?'}` is not the length of exactly the iterated (filtered) sequence", loc)
     # helper predicates
     isig = tree.func("core.objects", "is_ignored")
-    rets = [x for x in body_walk(isig.node) if isinstance(x, ast.Return)]
-    ok = False
-    if len(rets) == 1 and isinstance(rets[0].value, ast.BoolOp) and isinstance(rets[0].value.op, ast.And):
-        p = isig.node.args.args[0].arg
-        parts = {src(v) for v in rets[0].value.values}
-        ok = {f"isinstance({p}, Config)", f"{p}.__xpm__.meta"} <= parts and parts <= {f"isinstance({p}, Config)", f"{p}.__xpm__.meta", f"{p} is not None"}
-    chk.require(ok, "core.objects:is_ignored:predicate", "is_ignored is not `Config and meta truthy`", chk.loc(isig.module, isig.node))
+    from ..dataflow import truth_of
+    gi = CFG(isig.node)
+    pv = isig.node.args.args[0].arg
+    texts = {f"{pv} is None": ("none", True), f"isinstance({pv}, Config)": ("config", True), f"{pv}.__xpm__.meta": ("meta", True), f"{pv}.__xpm__.meta is True": ("meta", True)}
+    cls_text = lambda t: texts.get(t)
+    okp = True
+    for none, config, meta in itertools.product([False, True], repeat=3):
+        if none and (config or meta):
+            continue
+        if not config and meta:
+            continue
+        sc = {"none": none, "config": config, "meta": meta}
+        outs = walk_table(gi, gi.entry, lambda n: cls_text(src(n.ast)), sc, lambda n: [],
+                          lambda n: ("ret" if (n.kind == "stmt" and isinstance(n.ast, ast.Return)) else ("fall" if n is gi.exit else None)))
+        # the walker stops *at* return nodes: evaluate their value
+        results = set()
+        for o in outs:
+            if o.unknown:
+                results.add(None)
+        for n in gi.live:
+            pass
+        # re-walk collecting the return nodes reached
+        reached = _reached_returns(gi, cls_text, sc)
+        for rn in reached:
+            results.add(truth_of(rn.ast.value, cls_text, sc) if rn.ast.value is not None else False)
+        okp = okp and results == {config and meta}
+    chk.require(okp, "core.objects:is_ignored:predicate", "is_ignored must be true exactly for a configuration whose meta flag is truthy", chk.loc(isig.module, isig.node))
     rm = tree.func("core.objects", "remove_meta")
     comps = [x for x in body_walk(rm.node) if isinstance(x, (ast.ListComp, ast.DictComp))]
     okc = len(comps) == 2 and all(len(c.generators) == 1 and len(c.generators[0].ifs) == 1 and src(c.generators[0].ifs[0]).startswith("not is_ignored(") for c in comps)
@@ -262,6 +282,28 @@ def r3_containers(chk: Check):
             else:
                 okc = okc and isinstance(tgt, ast.Tuple) and len(tgt.elts) == 2 and src(tgt.elts[1]) == arg and src(c.value) == arg and src(c.key) == src(tgt.elts[0])
     chk.require(okc, "core.objects:remove_meta:filters", "remove_meta does not filter list elements and dict values with `not is_ignored(.)`", chk.loc(rm.module, rm.node))
+
+
+def _reached_returns(g, cls_text, sc):
+    """Return statements reachable under a scenario (tests decided by the scenario follow one branch)"""
+    out, seen, stack = [], set(), [g.entry]
+    while stack:
+        n = stack.pop()
+        if n.id in seen:
+            continue
+        seen.add(n.id)
+        if n.kind == "stmt" and isinstance(n.ast, ast.Return):
+            out.append(n)
+            continue
+        succ = [(m, l) for m, l in n.succ if l != "exc"]
+        if n.kind == "test":
+            c = cls_text(src(n.ast))
+            if c is not None and sc.get(c[0]) is not None:
+                v = sc[c[0]] if c[1] else not sc[c[0]]
+                succ = [(m, l) for m, l in succ if l == v]
+        for m, l in succ:
+            stack.append(m)
+    return out
 
 
 def _prop_return_const(tree, modname, clsname, prop):
